@@ -76,6 +76,26 @@ func classify(err error) int {
 	return cOtherErr
 }
 
+// exactClass: the library's verdict when the data is decoded with UseNumber (no float64 rounding)
+func exactClass(in *Input) (cls int) {
+	defer func() {
+		if r := recover(); r != nil {
+			cls = cPanic
+		}
+	}()
+	sch, err := jsonschema.CompileString("temp.json", in.Schema)
+	if err != nil {
+		return cSchemaErr
+	}
+	dec := ej.NewDecoder(strings.NewReader(in.Data))
+	dec.UseNumber()
+	var v any
+	if err := dec.Decode(&v); err != nil {
+		return cDataSyntax
+	}
+	return classify(sch.Validate(v))
+}
+
 type noParser struct{}
 
 func (noParser) ParseClaim(ctx context.Context, c verifiable.W3CCredential, o *processor.CoreClaimOptions) (*core.Claim, error) {
@@ -150,7 +170,9 @@ func (g *gen) oracle(in *Input, cls int, msg string) {
 	switch {
 	case cls == cPanic:
 		g.rep.Fail("c18-panic", what, in)
-	case in.Stream == "kf-number-precision":
+	case in.Stream == "kf-number-precision" && exactClass(in) == in.Expect:
+		// the library itself gives the expected verdict when the data keeps its exact numbers
+		// (json.Number): the deviation is exactly the float64 decoding in the wrapper (D16)
 		g.rep.Fail("c18-number-precision", what, in)
 	case in.Stream == "kf-empty-enum":
 		g.rep.Fail("c18-empty-enum", what, in)
@@ -344,6 +366,23 @@ func (g *gen) invalidSchemaStream(scs []*scenario, n int) {
 	for _, p := range []string{`(`, `[a`, `a**`, "a\\", `a{2,1}`, `(?=a)`, `\1`, `a{1001}`} {
 		s := Obj(M("properties", Obj(M("a", Obj(M("pattern", Str(p)))))))
 		g.add(&Input{Schema: s.Text(), Data: obj, Expect: cSchemaErr, Kind: "invalid-schema:pattern-syntax", NoCoq: true})
+	}
+	// deep recursion: the fuel the model needs grows with the depth of the instance
+	{
+		const recSchema = `{"$defs":{"n":{"type":"object","properties":{"next":{"$ref":"#/$defs/n"},"v":{"type":"integer"}},"required":["v"],"additionalProperties":false}},"properties":{"a":{"$ref":"#/$defs/n"}}}`
+		for _, depth := range []int{70, 150} {
+			for _, leaf := range []string{`{"v":0}`, `{"v":"x"}`} {
+				inner := leaf
+				for i := 1; i < depth; i++ {
+					inner = fmt.Sprintf(`{"v":%d,"next":%s}`, i, inner)
+				}
+				exp := cValid
+				if strings.Contains(leaf, `"x"`) {
+					exp = cInvalid
+				}
+				g.add(&Input{Schema: recSchema, Data: `{"a":` + inner + `}`, Expect: exp, Kind: "recursive-deep"})
+			}
+		}
 	}
 	// boolean root schemas
 	g.add(&Input{Schema: `true`, Data: obj, Expect: cValid, Kind: "root-true"})
@@ -539,6 +578,7 @@ func Run(cfg *common.Config) (*common.Report, error) {
 	g.facadeStream(cfg.Pick(36, 600))
 	g.precisionStream()
 	g.emptyEnumStream()
+	g.suiteStream()
 	for i, in := range g.cases {
 		if i%83 == 0 {
 			rep.Sample(map[string]any{"input": in, "observed": className[g.obs[i]]})
